@@ -15,7 +15,8 @@ RULE = ("random: command trees from vp/gen_cmd.py (hyphen=0.3, flag_subs=0.3) de
         "over a 24-token alphabet up to a length bound x every index (the ParseState x token-shape sweep).  A case is "
         "non-trivial when the engine returned at least one candidate; distinct = distinct case text.")
 TRUSTED = [
-    "Coq 8.16.1 kernel (coqc); no native_compute; theorems C18_* are 'Closed under the global context'",
+    "Coq 8.16.1 kernel (coqc); no native_compute; theorems C18_* are 'Closed under the global context' (no axioms, also no "
+    "standard-library axioms); round-2 proofs reuse ParseProofs/{Spelling,Dispatch,ErrorSound}.v of C08/C09/C10",
     "extraction: ExtrOcamlBasic only, no Extract Constant; OCaml driver ocaml/dynamic_driver.ml + common_parse/spec.ml",
     "correspondence: vp/props/c18.py generators, harness/src/modes/dynamic.rs, multiset comparison of (value, hidden) candidates",
     "modelled not verified: Parse/Build.v blocks of Command::_build_self and Parse/Valid.v assert_app (shared parser model), "
@@ -29,17 +30,31 @@ ASSUMPTIONS = [
     "the final stable sort by (tag, display order) is not modelled: candidate lists are compared as multisets",
     "pos_index/count arithmetic is unbounded N in the model (bounded by the number of argv words in the code)",
 ]
-TECHNIQUE = "Coq proof (totality, soundness and completeness of the engine model) + extracted-model/implementation correspondence"
-LEVEL_TEXT = ("Machine-checked theorems (Coq 8.16, closed under the global context) about a function-by-function model of "
-              "clap_complete::engine::complete: no panic site is reachable for any command, argv and index; in state "
-              "ValueDone every option/subcommand candidate extends the word, names an option/alias/subcommand of the level "
-              "reached by the shadow parse and is resolved by the parser's key map / find_subcommand; every visible long, "
-              "visible alias and subcommand name extending the word is represented, hidden candidates appear only when no "
-              "visible one does.  The model is tied to clap_complete by running the extracted model and the real crate on "
-              "the same generated cases on every check; an independent python oracle splices each candidate into the line "
-              "and has the real parser accept it.")
+TECHNIQUE = ("Coq proof (totality incl. fuel, soundness, completeness of the engine model; acceptance of every offered "
+             "option/subcommand candidate by the PARSER model; level correspondence) + extracted-model/implementation correspondence")
+LEVEL_TEXT = ("Machine-checked theorems (Coq 8.16, 36 pinned, all closed under the global context) about a function-by-function "
+              "model of clap_complete::engine::complete: no panic site is reachable and no fuel runs out for any command, argv "
+              "and index (build_full's fuel proved sufficient); in state ValueDone every option/subcommand candidate extends the "
+              "word and names an option/alias/subcommand of the level reached by the shadow parse; under assert_app's uniqueness "
+              "the engine's flag resolution equals the parser model's key lookup (same argument), and every offered candidate, "
+              "given to the parser model's token loop (Parse/Parser.v: parse_long_arg / parse_short_arg / possible_subcommand) at "
+              "a level with the same arguments and subcommand names, starts an occurrence of exactly that argument resp. "
+              "dispatches to that subcommand - it never produces UnknownArgument/InvalidSubcommand (class: well-formed names, "
+              "typed cluster of known flags, no flag-subcommand resume pending); the parser's lazily built node and the engine's "
+              "node of the fully built tree have the same arguments/settings/subcommand names at the root and after both moved on "
+              "a subcommand name; every visible long, visible alias, short (after '', '-', clusters of flags) and subcommand name "
+              "extending the word is represented, hidden candidates appear only when no visible one does; value candidates of an "
+              "option awaiting a value are exactly the declared possible values extending the last element behind the typed "
+              "delimiter prefix.  The model is tied to clap_complete by running the extracted model and the real crate on the "
+              "same generated cases on every check; an independent python oracle splices each candidate into the line and has "
+              "the real parser accept it.")
 LEVEL_NOTE = ("Trusted: Coq kernel, extraction, OCaml driver, Rust harness, generators; Command::build blocks and assert_app "
-              "shared with the parser model; ordering of candidates, custom/path completers not modelled.")
+              "shared with the parser model.  Differential/oracle only: ordering of candidates; agreement of the shadow parse's "
+              "state with the parser's state along prefixes that contain options (levels are proved, ValueDone<->ValuesDone is "
+              "not); acceptance on whole lines by the real parser; flag subcommands and the generated help subcommand's level; "
+              "custom/path completers not modelled.  Refutation witnesses kept as theorems: an option without long name but with "
+              "a visible alias is not recognised by the shadow parse (C18_same_long_refuted); --alias=<TAB> offers no values "
+              "(C18_long_alias_value_refuted).")
 
 U64_MAX = 2**64 - 1
 BAD_KINDS = {"UnknownArgument", "InvalidSubcommand", "PANIC"}
@@ -154,8 +169,9 @@ def find_sub(node, name):
     return None
 
 
-UNSAFE_CMD_FLAGS = {"args_conflicts_with_subcommands", "allow_external_subcommands",
-                    "allow_missing_positional", "multicall"}
+UNSAFE_CMD_FLAGS = {"allow_external_subcommands", "allow_missing_positional", "multicall"}
+# `args_conflicts_with_subcommands` is per level and so is the parser's "an argument was seen" flag: at a level that sets
+# it a subcommand name is recognised as long as no argument OF THAT LEVEL came before it (after one, the scan gives up).
 # `subcommand_precedence_over_arg` is a per-command setting (it is not propagated): at a level that sets it a word naming a
 # subcommand is that subcommand even while a multiple positional is being filled; the scan follows the level it is at.
 
@@ -170,6 +186,7 @@ def scan_prefix(root, words):
     n = len(words)
     in_pos = False      # a multiple positional is being filled (the parser's ParseState::Pos)
     weak = False        # ... has happened: only soundness is judged from then on
+    seen_arg = False    # an option / flag / positional value of the CURRENT level was read (reset on descent)
     while i < n:
         if level["flags"] & UNSAFE_CMD_FLAGS:
             return None
@@ -182,6 +199,7 @@ def scan_prefix(root, words):
             return None
         if w.startswith(b"-"):
             in_pos = False
+            seen_arg = True
         if w.startswith(b"--"):
             body = w[2:]
             name, eq, _val = body.partition(b"=")
@@ -229,8 +247,11 @@ def scan_prefix(root, words):
             i += 2 if consumed_next else 1
             continue
         s = find_sub(level, w)
+        if s is not None and seen_arg and "args_conflicts_with_subcommands" in level["flags"]:
+            return None
         if s is not None and (not in_pos or "subcommand_precedence_over_arg" in level["flags"]):
             in_pos = False
+            seen_arg = False
             level = s
             pc = 0
             i += 1
@@ -242,6 +263,7 @@ def scan_prefix(root, words):
             # that names a subcommand (Parser::get_matches_with looks for subcommands only outside Pos)
             in_pos = True
             weak = True
+            seen_arg = True
             i += 1
             continue
         # a positional that takes several values or appends is "multiple" for the parser: while it is being
@@ -250,9 +272,12 @@ def scan_prefix(root, words):
                 or pos[0]["flags"] & {"last", "tva", "term", "append"}:
             return None
         pc += 1
+        seen_arg = True
         i += 1
     if level["flags"] & UNSAFE_CMD_FLAGS:
         return None
+    if seen_arg and "args_conflicts_with_subcommands" in level["flags"]:
+        return None       # subcommand names are no valid continuation here; options still are, but keep it simple
     return level, weak
 
 
@@ -347,6 +372,48 @@ def accept_oracle(case, impl):
     # ---- hidden only when nothing visible matches
     if any_visible and any(h for _, h in cands):
         return "hidden candidates offered although a visible one matches"
+    # the same rule read off the DEFINITION (a candidate's own hide flag is what the engine claims): a spelling that is
+    # hidden by definition -- a hidden argument/subcommand, or an alias that is not a visible alias -- may be offered only
+    # when no candidate with a visible spelling is (seeded change seed2/C18-3: the hide flag of alias candidates was lost)
+    def def_hidden(v, cid):
+        if cid is None:
+            return None
+        if cid.startswith(b"arg::"):
+            own = [a for a in level["args"] if a["id"] == cid[5:]]
+            if not own:
+                return None
+            a = own[0]
+            if a["hidden"]:
+                return True
+            if v.startswith(b"--"):
+                nm = v[2:].split(b"=")[0]
+                if nm in a.get("l", []) or nm in a.get("va", []):
+                    return False
+                return True if nm in a.get("aa", []) else None
+            if v.startswith(b"-") and len(v) >= 2:
+                try:
+                    ch = v.decode("utf-8")[-1]
+                except UnicodeDecodeError:
+                    return None
+                if ch in a.get("s", []) or ch in a.get("vsa", []):
+                    return False
+                return True if ch in a.get("asa", []) else None
+            return None
+        if cid.startswith(b"command::"):
+            sub = find_sub(level, v)
+            if sub is None:
+                return None
+            if sub["hidden"]:
+                return True
+            if v == sub["name"] or v in sub["va"]:
+                return False
+            return True
+        return None
+    dh = [(v, def_hidden(v, cid)) for v, _ in cands for cid in ids.get(v, [None])]
+    if any(x is False for _, x in dh):
+        bad = [v for v, x in dh if x is True]
+        if bad:
+            return "spelling %r is hidden by definition but offered although a visible spelling matches" % bad[0]
     # ---- completeness: visible options / subcommands with a spelling extending the (well-formed) word
     if weak:
         return None
@@ -632,6 +699,28 @@ def precedence_commands():
     return out
 
 
+def gen_argsconflict(mode):
+    """args_conflicts_with_subcommands on a middle level, arguments given on the OUTER level before it (seeded change
+    seed2/C18-1: the engine's 'an argument was seen' flag must start afresh in every subcommand, as the parser's does)"""
+    def arg(id_, *items):
+        return "(arg %s%s)" % (h(id_), "".join(" " + x for x in items))
+    out = []
+    for root_s in (False, True):
+        for mid_s in (False, True):
+            leaf = "(sub (cmd %s %s))" % (h(b"add"), arg(b"fetch", "(long %s)" % h(b"fetch"), "(action settrue)"))
+            mid = "(sub (cmd %s%s %s %s))" % (h(b"remote"), " (set args_conflicts_with_subcommands)" if mid_s else "",
+                                            arg(b"all", "(long %s)" % h(b"all"), "(short %d)" % ord("a"), "(action settrue)"), leaf)
+            root = "(cmd %s%s %s %s %s)" % (h(b"p"), " (set args_conflicts_with_subcommands)" if root_s else "",
+                                         arg(b"verbose", "(long %s)" % h(b"verbose"), "(short %d)" % ord("v"), "(action settrue)"),
+                                         arg(b"cfg", "(long %s)" % h(b"cfg"), "(action set)"), mid)
+            lines = [[b"--verbose", b"remote", b"add"], [b"remote", b"add"], [b"-v", b"remote"], [b"--cfg", b"x", b"remote", b"add"],
+                     [b"remote", b"--all"], [b"remote"], [b"--verbose"], [b"--cfg=x", b"remote", b"add", b"--fetch"]]
+            for ln in lines:
+                for w in (b"", b"-", b"--", b"--f", b"--a", b"a", b"r"):
+                    out.append(case_line(mode, root, [b"prog"] + ln + [w], len(ln) + 1))
+    return out
+
+
 def gen_precedence(mode):
     out = []
     lines = [[b"run", b"a", b"build"], [b"run", b"build"], [b"a", b"run"], [b"a", b"run", b"b", b"build"],
@@ -642,6 +731,29 @@ def gen_precedence(mode):
         for ln in lines:
             for w in words:
                 out.append(case_line(mode, c, [b"prog"] + ln + [w], len(ln) + 1))
+    return out
+
+
+def gen_paths():
+    """value hints reach the path completers of engine/custom.rs (not modelled: their candidates are file names); the
+    property's first sentence still covers them: a candidate list or a plain error, never a panic -- for every word,
+    in particular `.`, `..`, `x/..`, a trailing slash, the empty word (seeded change seed2/C18-2)"""
+    def arg(id_, *items):
+        return "(arg %s%s)" % (h(id_), "".join(" " + x for x in items))
+    out = []
+    words = [b"", b".", b"..", b"../", b"./", b"sub/..", b"sub/.", b"sub/", b"sub", b"su", b"a.t", b"/", b"//", b"sub/deep/..",
+             b".h", b"-dash", b"\xff", b"sub/\xff", b"~", b"nope/..", b"...", b"sub/b"]
+    for hint in ("AnyPath", "FilePath", "DirPath", "ExecutablePath", "Other"):
+        c = "(cmd %s %s %s %s %s)" % (
+            h(b"p"),
+            arg(b"input", "(long %s)" % h(b"input"), "(short %d)" % ord("i"), "(action set)", "(x-hint %s)" % hint),
+            arg(b"many", "(long %s)" % h(b"many"), "(action append)", "(num 1 inf)", "(delim 44)", "(x-hint %s)" % hint),
+            arg(b"flag", "(short %d)" % ord("f"), "(action settrue)"),
+            arg(b"file", "(x-hint %s)" % hint, "(num 0 inf)"))
+        for w in words:
+            for line in ([b"--input", w], [b"--input=" + w], [b"-i", w], [b"-i" + w], [b"-fi" + w], [w], [b"x", w], [b"--", w],
+                         [b"--many", b"a", w], [b"--many=a," + w]):
+                out.append(case_line("dynpath", c, [b"prog"] + line, len(line)))
     return out
 
 
@@ -703,11 +815,11 @@ def coverage(cases, tag):
 def streams(tier, rng):
     quick = tier == "quick"
     dyn_cases = gen_random(rng, 120 if quick else 1500, 3, "dyn")
-    st_cases = gen_states(rng, tier, "dyn", 2 if quick else 3, 400 if quick else 6000) + gen_precedence("dyn")
+    st_cases = gen_states(rng, tier, "dyn", 2 if quick else 3, 400 if quick else 6000) + gen_precedence("dyn") + gen_argsconflict("dyn")
     acc_cases = gen_random(rng, 60 if quick else 500, 2, "dynaccept", conventional=False) \
         + gen_random(rng, 80 if quick else 700, 2, "dynaccept", conventional=True) \
         + gen_states(rng, tier, "dynaccept", 1 if quick else 2, 250 if quick else 3000) \
-        + gen_pending("dynaccept") + gen_precedence("dynaccept")
+        + gen_pending("dynaccept") + gen_precedence("dynaccept") + gen_argsconflict("dynaccept")
     return [
         Stream("dyn", dyn_cases, oracle=total_oracle, area="dynamic", project=project, nontrivial=nontrivial,
                describe={"state x word-shape": coverage(dyn_cases, "dyn")}),
@@ -715,6 +827,7 @@ def streams(tier, rng):
                describe={"state x word-shape": coverage(st_cases, "states")}),
         Stream("accept", acc_cases, oracle=accept_oracle, area="dynamic", project=project, nontrivial=nontrivial,
                describe={"state x word-shape": coverage(acc_cases, "accept")}),
+        Stream("paths", gen_paths(), oracle=total_oracle, area=None, nontrivial=lambda c, r: bool(r) and r.startswith("ok")),
     ]
 
 
